@@ -346,3 +346,57 @@ func TestConcurrentMarshal(t *testing.T) {
 		t.Error(bad)
 	}
 }
+
+// TestTransportRefusedCER is not a race audit: it replays the refused-CER traces of the C11 model
+// (no common application, missing Origin-Host, and an acceptable CER as control) once on a kernel
+// TCP socket, the one transport class the in-memory exploration cannot instantiate. The
+// observation needs no clock: when the state machine's CER handler returns, the transport of a
+// refused peer is closed (any operation on it reports "use of closed network connection") and the
+// transport of an accepted peer is not.
+func TestTransportRefusedCER(t *testing.T) {
+	for _, kind := range []string{"accepted", "no-common-application", "no-origin-host"} {
+		ln, err := net.Listen("tcp", "127.0.0.1:0")
+		if err != nil {
+			t.Skipf("no loopback TCP in this environment: %v", err)
+		}
+		mach := sm.New(settings("srv"))
+		state := make(chan error, 4)
+		h := diam.HandlerFunc(func(c diam.Conn, m *diam.Message) {
+			mach.ServeDIAM(c, m)
+			if m.Header.CommandCode == 257 {
+				state <- c.Connection().SetReadDeadline(time.Time{})
+			}
+		})
+		srv := &diam.Server{Handler: h, Dict: dict.Default}
+		go srv.Serve(ln)
+		p, err := net.Dial("tcp", ln.Addr().String())
+		if err != nil {
+			t.Fatal(err)
+		}
+		m := diam.NewRequest(257, 0, dict.Default)
+		if kind != "no-origin-host" {
+			m.NewAVP(avp.OriginHost, avp.Mbit, 0, datatype.DiameterIdentity("cli"))
+		}
+		m.NewAVP(avp.OriginRealm, avp.Mbit, 0, datatype.DiameterIdentity("test"))
+		m.NewAVP(avp.HostIPAddress, avp.Mbit, 0, datatype.Address(net.ParseIP("10.0.0.2")))
+		m.NewAVP(avp.VendorID, avp.Mbit, 0, datatype.Unsigned32(13))
+		m.NewAVP(avp.ProductName, 0, 0, datatype.UTF8String("p"))
+		if kind == "no-common-application" {
+			m.NewAVP(avp.AuthApplicationID, avp.Mbit, 0, datatype.Unsigned32(9999))
+		} else {
+			m.NewAVP(avp.AuthApplicationID, avp.Mbit, 0, datatype.Unsigned32(4))
+		}
+		if _, err := m.WriteTo(p); err != nil {
+			t.Fatal(err)
+		}
+		serr := <-state
+		if kind == "accepted" && serr != nil {
+			t.Errorf("kernel TCP, accepted CER: the transport was closed (%v)", serr)
+		}
+		if kind != "accepted" && serr == nil {
+			t.Errorf("kernel TCP, refused CER (%s): transport left open after a refused CER", kind)
+		}
+		p.Close()
+		ln.Close()
+	}
+}
